@@ -83,7 +83,7 @@ def run(ctx):
     })
     # start from a populated state too: both jobs initialised with payload and a shallow copy each
     _ALPHABET = dict(CLOSED, _name="closed")
-    root = (("open", "A", 0), ("doc_set", "A"), ("copy", "A", "Ac"), ("open", "B", 1), ("init", "B"))
+    root = (("open", "A", 0), ("write", "A", "f1"), ("copy", "A", "Ac"), ("open", "B", 1), ("init", "B"))
     st3 = engine_h.explore(ctx, _exec, max_depth=3 if ctx.quick else 4, chunk=16, root=root)
     engine_h.fill_report(report, st3)
     report.coverage["bounds"]["rooted_closed_depth_beyond_root"] = 3 if ctx.quick else 4
